@@ -12,7 +12,7 @@
    cannot exhibit state leaking between evaluations; that half of the property
    is covered by conformance runs only), commutativity of Join in the
    specification, and in the model wherever both operand orders lie in the proved
-   C04 fragment (in general it fails on the model: findings F-C04-3, F-C04-4 are
+   C04 fragment (in general it fails on the model: findings F-C04-1, F-C04-4 are
    asymmetric); likewise associativity of Join, the placement of a FILTER before or
    after a join, and "pre-binding = a VALUES row"; the prepared Query object as a
    state machine whose evaluations do not change it (tied by snapshots of the real
@@ -145,13 +145,15 @@ Theorem C15_same_algebra_glue : forall c, no_own_algebra c = true -> tied15 c = 
 Proof. exact no_own_tied. Qed.
 Print Assumptions C15_same_algebra_glue.
 
-(* F-C15-1, closed witness: the algebra answers both spellings with the same two
-   rows; the model (= rdflib) answers the first with one row; the trigger fires *)
+(* F-C15-1, closed witness ({ ?x :p ?y . { BIND(11 AS ?y) } } and the same group with its
+   two elements swapped, a rewriting in the sense of [aeqb]): the algebra answers both
+   spellings with no row; the model (= rdflib) answers the first with one row, the
+   second with none; the trigger fires *)
 Theorem C15_refuted :
   spec_ok15 w15 (model_obs15 w15) = false /\ kf15 w15 = 1%N
-  /\ msol_eqb (spec_rows w15_base) (spec_rows w15_var) = true
-  /\ length (spec_rows w15_base) = 2%nat
-  /\ model_obs w15_base = RSel [[(1, 1); (2, 2); (3, 2); (4, 11)]]%N.
+  /\ aeqb (c_alg w15_base) (c_alg w15_var) = true
+  /\ spec_rows w15_base = [] /\ spec_rows w15_var = []
+  /\ model_obs w15_base = RSel [[(1, 1); (2, 2)]]%N /\ model_obs w15_var = RSel [].
 Proof. exact w15_refuted. Qed.
 Print Assumptions C15_refuted.
 
